@@ -773,6 +773,48 @@ class Intrinsics:
 
     def s_seq_len(self, P, seq):
         return containers.seq_len(P, seq)
+    def s_apply_lemma(self, P, name, **kw):
+        """
+        lemma application (as in Dafny): the lemma's precondition becomes an obligation `pre@<Lemma>[..]` of the
+        caller, its postcondition an assumption.  The lemma itself is verified separately (it is a contract).
+        """
+        ex = self.ex
+        c = ex.contracts.get(name)
+        if c is None or c.kind != 'lemma':
+            raise InterpError(f'apply_lemma: no lemma named {name}')
+        if ex.current is not None and ex.current.name == name:
+            raise InterpError('apply_lemma: a lemma may not apply itself')
+        missing = [q for q in c.params if q not in kw]
+        if missing:
+            raise InterpError(f'apply_lemma({name}): missing arguments {missing}')
+        bound = {q: kw[q] for q in c.params}
+        if c.pre is not None:
+            for k, cond in ex._call_spec(P, c.pre, bound).items():
+                cond = P.truthy(cond)
+                P.oblige(f'pre@{name}[{k}]', 'pre', cond)
+                P.assume(cond, fact=True)
+        if c.post is not None:
+            for k, cond in ex._call_spec(P, c.post, bound).items():
+                P.assume(P.truthy(cond), fact=True)
+        P.modular.add(name)
+        return True
+
+    def s_obj_id(self, P, o):
+        """identity of an object as an integer (names ghost values attached to an abstract object)"""
+        return id(o)
+
+    def s_ambient(self, P):
+        """innermost active `with` model object (None outside any `with`)"""
+        st = getattr(P, 'with_stack', None)
+        return st[-1] if st else None
+
+    def s_callable_name(self, P, f):
+        """dotted name of an external callable / qualified name of a repository function, else None"""
+        if isinstance(f, ExtV):
+            return f.name
+        if isinstance(f, FuncV) and f.self_obj is None:
+            return f.info.qualname
+        return None
 
     def s_implies(self, P, a, b):
         a, b = P.truthy(a), P.truthy(b)
